@@ -58,6 +58,7 @@ pub fn errno_name(e: Option<i32>) -> String {
             libc::EPERM => "EPERM".into(),
             libc::EMFILE => "EMFILE".into(),
             libc::ENOSPC => "ENOSPC".into(),
+            libc::ENFILE => "ENFILE".into(),
             n => format!("errno {n}"),
         },
     }
@@ -229,7 +230,9 @@ fn judge_entries(step: usize, op: &ROp, p: &[u8], got: &[(Vec<u8>, u8, bool)], r
     if rawnames != stdnames {
         return Err(Failure::new("harness|observer-error", "raw getdents64 and std::fs::read_dir disagree on the names".to_string()));
     }
-    let shape = if raw.len() >= 20 { "several getdents buffers" } else { "one getdents buffer" };
+    // record sizes as the kernel lays them out: header 19 bytes + name + NUL, 8-aligned
+    let bytes: usize = raw.iter().map(|x| (19 + x.0.len() + 1 + 7) & !7).sum();
+    let shape = if bytes > 512 { "several getdents buffers" } else { "one getdents buffer" };
     let mut exp: Vec<(Vec<u8>, u8)> = raw.clone();
     exp.sort();
     let mut g: Vec<(Vec<u8>, u8)> = got.iter().map(|x| (x.0.clone(), x.1)).collect();
@@ -265,6 +268,7 @@ fn judge_entries(step: usize, op: &ROp, p: &[u8], got: &[(Vec<u8>, u8, bool)], r
         }
     }
     rep.class_if(raw.len() >= 20, "multi-buffer");
+    rep.class_if(bytes > 512, "listing>512-bytes");
     rep.class_if(raw.len() >= 200, "fanout>=200");
     rep.class_if(raw.len() >= 1000, "fanout>=1000");
     rep.class_if(raw.iter().any(|x| x.0.len() == 255), "name-255");
